@@ -10,7 +10,7 @@ import random
 
 import vlib
 
-WEDGE_INV = ["SeqIsCyclicOrder", "Laws", "Reflexive", "PointLevel", "Emit"]
+WEDGE_INV = ["SeqIsCyclicOrder", "Laws", "Reflexive", "PointLevel", "TablesAreDefinitions", "Emit"]
 VQ_INV = ["SeqIsCyclicOrder", "Laws", "Sibling", "Angle", "ExactlyOne", "Emit"]
 WORKERS = 6
 
@@ -51,8 +51,8 @@ def wedges(ctx, rnd):
     ]
     plan = []
     if q:
-        sub = mixed_sub(rnd, 2, 6, 3)
-        plan.append((2, set(rnd.sample(sorted(sub), 1)) | {rnd.choice(core_indices(2))}, sub))
+        sub = mixed_sub(rnd, 2, 8, 4)
+        plan.append((2, set(rnd.sample(sorted(sub), 2)) | {rnd.choice(core_indices(2))}, sub))
     else:
         all26 = list(range(1, 27))
         rnd.shuffle(all26)
@@ -84,7 +84,7 @@ def vertex_queries(ctx, rnd):
     ]
     plan = []
     if q:
-        sub = mixed_sub(rnd, 2, 4, 2)
+        sub = mixed_sub(rnd, 2, 4, 3)
         plan.append((2, set(rnd.sample(sorted(sub), 1)) | {rnd.choice(core_indices(2))}, sub, 4))
     else:
         for _ in range(2):
